@@ -395,10 +395,61 @@ def replay_known_regex(ctx):
     else:
         ctx["cov"].setdefault("known_findings_no_longer_reproduced", []).append("D14")
 
+def run_c05(ctx):
+    def extra(ctx, results):
+        n = 0
+        for name, text, meta, m, i in results:
+            if "blocks" not in i:
+                continue
+            errs = [e for e in graphcheck.check_graph(text, i) if "subroutine" in e or "callsub" in e]
+            n += 1
+            if errs:
+                ctx["violations"].append((f"{name}: {errs[0]}", {"kind": "subroutine-law", "program": text}))
+        ctx["cov"]["graphs_checked_against_laws"] = n
+    generic_run(ctx, cmp_for(), set(), extra=extra)
+
+
+def c19_extra(ctx):
+    """program-level decision logic: version flags, mixed mode, contract type, block costs for declared versions 1..8"""
+    import re as _re
+    rng = ctx["rng"]
+    progs = [t for _, t in corpus_programs()][:40]
+    for _ in range(60 if ctx["tier"] == "quick" else 600):
+        t, _f = gen.random_program(rng)
+        progs.append(t)
+    extra_ops = ["app_global_get", "arg 0", "balance", "log", "sha3_256", "ed25519verify", "global OpcodeBudget", "txn LastLog",
+                 "ecdsa_pk_decompress Secp256r1", "b+", "bsqrt", "gaid 0", "itxn_begin", "box_del", "json_ref JSONString", "args"]
+    reqs = []
+    for n, t in enumerate(progs):
+        for v in rng.sample(range(1, 9), 3):
+            lines = t.split("\n")
+            if lines and lines[0].startswith("#pragma"):
+                lines[0] = f"#pragma version {v}"
+            elif rng.random() < 0.7:
+                lines.insert(0, f"#pragma version {v}")
+            k = rng.randrange(1, len(lines) + 1)
+            lines.insert(k, rng.choice(extra_ops))
+            lines.insert(k + 1, "pop") if rng.random() < 0.5 else None
+            reqs.append(("cfg", f"v{len(reqs)}", "\n".join(lines), []))
+    m, i = corr.run_both(reqs)
+    nd = 0
+    for kind, rid, text, _ in reqs:
+        d = corr.cmp_cfg(m[rid], i[rid])
+        if d:
+            nd += 1
+            if nd <= 3:
+                ctx["broken"].append(f"correspondence (version/mode/cost) on program {text!r}: {d[0][:300]}")
+    ctx["cov"]["program_level_cases"] = len(reqs)
+    ctx["cov"]["program_level_disagreements"] = nd
+
+
+LINE_EXTRA["C19"] = c19_extra
+
 PROPS = {
     "C01": {"run": run_c01},
     "C02": {"run": run_c02},
     "C04": {"run": run_c04},
+    "C05": {"run": run_c05},
     "C06": {"run": run_ctx(key_is("GroupSize", "GroupIndex"), {"C06"}, ["gsize", "gindex", "bool", "spell"], known=("D2", "D12"))},
     "C07": {"run": run_ctx(key_is("TransactionType"), {"C07"}, ["type", "oc", "appid"], known=("D16",))},
     "C08": {"run": run_ctx(key_is("RekeyTo", "CloseRemainderTo", "AssetCloseTo", "Sender"), {"C08"}, ["addr", "bool"], known=("D19",))},
